@@ -179,12 +179,30 @@ theorem parse_spec (s : List Char) (a b c : Nat) :
     simp only [pyInt_eq_decVal (canon_digits hA), pyInt_eq_decVal (canon_digits hB),
       pyInt_eq_decVal (canon_digits hC)]
 
+/-- the control-flow skeleton of `RpcServer._check_protocol_version` that `Model.C09.check` transliterates: missing ->
+undecodable -> malformed (through `parse_version`) -> equal (major, minor) passes -> direction by tuple order -> refuse.
+Any further exit (e.g. a "fast path" in front of the parse), a reordered step or a different comparison changes this list. -/
+def expectedCheckSkeleton : List String := [
+  "assign server_parts",
+  "assign server_version",
+  "assert",
+  "if client_version_bytes is None => raise ProtocolVersionError",
+  "try client_version = client_version_bytes.decode() | except UnicodeDecodeError => raise ProtocolVersionError",
+  "try client_parts = parse_version(client_version) | except ValueError => raise ProtocolVersionError",
+  "if client_parts[:2] == server_parts[:2] => return",
+  "if (client_parts[0], client_parts[1]) < (server_parts[0], server_parts[1]) => assign direction | else => assign direction",
+  "raise ProtocolVersionError"
+]
+
 /-- every gate call site is recognised, guards on "service declares a version", and exempts
-exactly `__describe__`; the three dispatch paths are all present. -/
+exactly `__describe__`; the three dispatch paths are all present; the gate function itself has the
+modelled skeleton. -/
 theorem C09_paths :
     Gen.Semver.gateSites.map (·.name) = ["pipe", "http_unary", "http_init"] ∧
-    ∀ site ∈ Gen.Semver.gateSites, site.recognised = true ∧ site.exempt = describeName := by
-  decide
+    (∀ site ∈ Gen.Semver.gateSites, site.recognised = true ∧ site.exempt = describeName) ∧
+    Gen.Semver.checkSkeleton = expectedCheckSkeleton := by
+  refine ⟨by decide, by decide, ?_⟩
+  rfl
 
 /-- **C09**: with a declared version, a call is let through iff it is introspection or the client
 declared a canonical version with the same major and minor. -/
@@ -192,7 +210,7 @@ theorem C09 (site : Gen.Semver.GateSite) (hs : site ∈ Gen.Semver.gateSites)
     (srv : Nat × Nat × Nat) (m : List Char) (md : ClientMd) :
     gate site (some srv) m md = .pass ↔
       (m = describeName ∨ ∃ s a b c, md = .text s ∧ CanonVersion s a b c ∧ a = srv.1 ∧ b = srv.2.1) := by
-  have hex : site.exempt = describeName := (C09_paths.2 site hs).2
+  have hex : site.exempt = describeName := (C09_paths.2.1 site hs).2
   unfold gate
   simp only [hex]
   by_cases hm : m = describeName
